@@ -801,7 +801,7 @@ class Probability(Expression):
         # only keep the + if necessary, otherwise show regular
         intervention_str = ",".join(
             f"+{intervention.name}" if intervention.star else intervention.name
-            for intervention in interventions
+            for intervention in _sort_interventions(interventions)
         )
         return f"P[{intervention_str}]({unintervened_distribution.to_y0()})"
 
@@ -1728,7 +1728,7 @@ class PopulationProbability(Probability):
         # only keep the + if necessary, otherwise show regular
         intervention_str = ",".join(
             f"+{intervention.name}" if intervention.star else intervention.name
-            for intervention in interventions
+            for intervention in _sort_interventions(interventions)
         )
         return f"PP[{self.population.to_y0()}][{intervention_str}]({unintervened_distribution.to_y0()})"
 
